@@ -13,13 +13,15 @@
    ([C02_caller_eof_sound_partial]), and ORDER towards the handler: the RecvMsg results of a stream handler, in
    order, are the classifications of a SUBSEQUENCE of the envelopes its caller wrote on that stream, in the
    order of writing - nothing reordered, duplicated, fabricated or altered ([C02_handler_order_partial]; a gap
-   in the subsequence is a frame dropped because its handler had gone). NOT proved: no loss towards the
-   handler in fault-free runs, order towards the caller, "EOF only after all messages", EOF completeness:
-   they need further per-id FIFO facts of the two components (docs/notes-sy.md);
+   in the subsequence is a frame dropped because its handler had gone), and ORDER towards the caller: the
+   messages RecvMsg returned on a call, in order, are a subsequence of the bodies of the envelopes the server
+   wrote with the call's id, in the order of writing ([C02_caller_order_partial]). NOT proved: no loss in
+   fault-free runs (prefix instead of subsequence), "EOF only after all messages", EOF completeness (never
+   Canceled on success): they need further facts of the two components (docs/notes-sy.md);
    the boolean predicates of Check/C02c.v judge all clauses on every recorded history of the real code. *)
 From Coq Require Import List ZArith Bool.
 Import ListNotations.
-From Goat Require Import Model.Client Model.Server Model.Sys Proofs.SysLog Proofs.SysProofs Proofs.SysC01 Proofs.SysC02 Proofs.SysC02b Proofs.SysC02c Proofs.SysC02d Proofs.SysC02e.
+From Goat Require Import Model.Client Model.Server Model.Sys Proofs.SysLog Proofs.SysProofs Proofs.SysC01 Proofs.SysC02 Proofs.SysC02b Proofs.SysC02c Proofs.SysC02d Proofs.SysC02e Proofs.SysC02f.
 Open Scope Z_scope.
 
 Theorem C02_wire_c2s_prefix_partial : forall pol ls s i, Sys.lrun pol Sys.init ls = Some s ->
@@ -74,6 +76,14 @@ Theorem C02_handler_order_partial : forall pol ls s h k, Sys.lrun pol Sys.init l
 Proof. exact C02_handler_results_order. Qed.
 Print Assumptions C02_handler_order_partial.
 
+(* order towards the caller: the messages RecvMsg returned on a call, in order, are a subsequence (same order,
+   no duplication) of the bodies of the envelopes the server wrote with that call's id *)
+Theorem C02_caller_order_partial : forall pol ls s c k, Sys.lrun pol Sys.init ls = Some s ->
+  nth_error (calls (cl s)) c = Some k ->
+  subseq (msgs c (Client.log (cl s))) (tbodies (by_id (k_id k) (map f_env (swrites (Server.log (sv s)))))).
+Proof. exact C02_caller_order_id. Qed.
+Print Assumptions C02_caller_order_partial.
+
 (* a concrete run: one stream, two messages echoed, half-close, the handler sees EOF and returns nil, the
    caller sees both messages and then io.EOF; the final state is quiescent with empty wires *)
 Example C02_demo :
@@ -86,6 +96,7 @@ Example C02_demo :
       /\ Sys.quiescent s = true /\ c2s s = [] /\ s2c s = []
       /\ In (SvOp 0 ORecvEof) (Server.log (sv s)) /\ In (EvWrite (close_env 1)) (Client.log (cl s))
       /\ recv_results 0 (Server.log (sv s)) = [ORecvMsg 11; ORecvMsg 12; ORecvEof]
+      /\ msgs 0 (Client.log (cl s)) = [11; 12]
   | None => False
   end.
 Proof. vm_compute. tauto. Qed.
